@@ -18,6 +18,8 @@ from __future__ import annotations
 import itertools
 import re
 
+from . import rxoracle
+
 from .core import AnalysisError
 from .objmodel import ClassModel
 from .ordabs import ModelRaise, Obj, Sym
@@ -48,10 +50,7 @@ def _ci_matcher(ci: Obj, v: str):  # noqa: ANN202
         return m_def
     pat = pats[0]
     flags = pat.flags
-    known = int(re.I) | int(re.A)
-    if flags & ~known:
-        raise AnalysisError(f"CIString compiles with flags {flags:#x}: outside what the standard library can stand in for")
-    rx = re.compile(pat.pattern, flags)
+    rx = rxoracle.compile_(pat.pattern, flags)  # the engine the repository uses, with its own flag values
 
     def m(w: str) -> int | None:
         r = rx.match(w)
@@ -89,10 +88,10 @@ def program(repo: Repo, where: str) -> ClassModel:
     for need in ("src/pest/grammar/optimizers/squash_choice.py", "src/pest/grammar/expressions/choice.py", "src/pest/grammar/expressions/terminals.py"):
         if need not in rels:
             raise AnalysisError(f"anchor vanished: {need}")
-    restub = Obj("re", I=re.I, IGNORECASE=re.I, A=re.A, ASCII=re.A, VERSION1=256, V1=256, VERSION0=0, FULLCASE=16384)
+    restub = Obj("re", **rxoracle.FLAGS)
     cm = ClassModel(repo, rels, where, {"re": restub, "ChoiceCase": Sym("ChoiceCase")}, max_steps=200000)
     cm._cache[("re", "compile")] = lambda _s, pat, flags=0: Obj("Pattern", pattern=pat, flags=flags)  # noqa: SLF001
-    cm._cache[("re", "escape")] = lambda _s, x: re.escape(x)  # noqa: SLF001
+    cm._cache[("re", "escape")] = lambda _s, x: rxoracle.escape(x)  # noqa: SLF001
     return cm
 
 
@@ -173,8 +172,8 @@ def check_squash(repo: Repo, where: str, alphabet: list[str], max_len: int, trip
             bad.append(("the pattern parse() uses is not the one generate() emits", f"{desc}: parse() matches with `{pat}`, generate() emits `{built}`"))
             return
         try:
-            rx = re.compile(pat)
-        except re.error as err:
+            rx = rxoracle.compile_(pat)
+        except (re.error, rxoracle.error) as err:
             bad.append(("the emitted pattern does not compile", f"{desc}: emitted pattern `{pat}` does not compile ({err})"))
             return
         for w in inputs:
